@@ -280,7 +280,13 @@ fn writer_case(toks: &[&str]) -> String {
 fn writer_case_inner(toks: &[&str]) -> String {
     let td = temp_dir::TempDir::new().unwrap();
     let dir: PathBuf = td.path().canonicalize().unwrap();
-    let prefix = dir.join(PREFIX);
+    // the path prefix is spelled in one of three equivalent ways (by the number of tokens of the case): plain, with a
+    // doubled separator, with a "." component -- the files of earlier runs belong to the same log whatever the spelling
+    let prefix = match toks.len() % 3 {
+        0 => dir.join(PREFIX),
+        1 => PathBuf::from(format!("{}//{}", dir.display(), PREFIX)),
+        _ => PathBuf::from(format!("{}/./{}", dir.display(), PREFIX)),
+    };
     // the sizes the library's own serialiser produces
     let mut probe: Vec<u8> = Vec::new();
     LogEvent::new(Level::Info, tag("msg", "")).write_jsonl(&mut probe).unwrap();
